@@ -11,6 +11,7 @@ import numpy as np
 from hypothesis import strategies as st
 
 from ..core import SubCheck, Violation, cut, quiet, require
+from ..strategies import rel_near
 from . import c15
 
 PROPERTY_ID = "C16"
@@ -76,7 +77,7 @@ fin = st.one_of(
 
 
 def config_dict():
-    ang = st.one_of(st.floats(-3.0, 3.0), st.sampled_from([0.0, 0.3, 1.1, math.radians(7.0), math.pi]))
+    ang = st.one_of(st.floats(-3.0, 3.0), st.sampled_from([0.0, 0.3, 1.1, math.radians(7.0), math.pi]), rel_near(c15.WHOLE_DEG), rel_near(c15.WHOLE_DEG))
     spectrum = st.one_of(
         st.fixed_dictionaries({"id": st.just("monospectrum"), "log_nu_energy": fin}),
         st.fixed_dictionaries({"id": st.just("powerspectrum"), "index": fin, "lower_bound": fin, "upper_bound": fin}),
